@@ -261,3 +261,40 @@ func selectIndices(f *Sx, out map[string]bool) {
 		selectIndices(c, out)
 	}
 }
+
+// expandExists: an existential in a positive position of a goal is weakened-by-cases into the disjunction of
+// its instances at the given witness constants (single binder, matching sort) plus the original existential.
+func expandExists(g *Sx, pos bool, wit []skolem) *Sx {
+	switch g.head() {
+	case "=>":
+		if len(g.L) == 3 {
+			return &Sx{L: []*Sx{g.L[0], expandExists(g.L[1], !pos, wit), expandExists(g.L[2], pos, wit)}}
+		}
+	case "and", "or":
+		n := &Sx{L: []*Sx{g.L[0]}}
+		for _, c := range g.L[1:] {
+			n.L = append(n.L, expandExists(c, pos, wit))
+		}
+		return n
+	case "not":
+		if len(g.L) == 2 {
+			return &Sx{L: []*Sx{g.L[0], expandExists(g.L[1], !pos, wit)}}
+		}
+	case "exists":
+		if pos && len(g.L) == 3 && len(g.L[1].L) == 1 && len(g.L[1].L[0].L) == 2 {
+			b := g.L[1].L[0]
+			srt := b.L[1].String()
+			alts := []*Sx{{Atom: "or"}}
+			for _, w := range wit {
+				if w.sort == srt && len(alts) < 10 {
+					alts = append(alts, g.L[2].subst(map[string]*Sx{b.L[0].Atom: {Atom: w.name}}))
+				}
+			}
+			if len(alts) > 1 {
+				alts = append(alts, g)
+				return &Sx{L: alts}
+			}
+		}
+	}
+	return g
+}
